@@ -923,7 +923,7 @@ def main(run):
     nw = NSERVERS
     args = [{'seed': run.seed, 'tier': run.tier, 'worker': w, 'workers': nw,
              'bases': run.pick(2, 3), 'long': run.pick(3, 75)} for w in range(nw)]
-    for a, r in core.pmap('vf.props.c15:work', args, nproc=nw, timeout=run.pick(600, 3000)):
+    for a, r in core.pmap('vf.props.c15:work', args, nproc=nw, timeout=run.pick(1800, 6000)):
         if isinstance(r, dict) and ('_died' in r or '_timeout' in r or '_error' in r):
             run.inconclusive.append('worker failure on %s: %s' % (json.dumps(a)[:100], json.dumps(r)[:1500]))
         else:
